@@ -5,7 +5,7 @@ PID = "C04"
 
 
 def run(rep):
-    H.run_h1(rep, PID, ["MC_C04_quick.cfg"], ["MC_C04_thorough.cfg"], [H.progress_family],
+    H.run_h1(rep, PID, ["MC_C04_quick.cfg", "MC_C04_upg.cfg"], ["MC_C04_thorough.cfg", "MC_C04_upg.cfg"], [H.progress_family],
              dict(allow_bad=0.1, one_byte=0.2, budget=0.8, faults=True), n_random=(300, 5000), probe=True, max_scripts=(1500, 20000))
 
 
